@@ -2,7 +2,7 @@
 import random
 
 from vlib import model, tlc
-from adapters import poolsim
+from adapters import poolsim, poolconf
 
 JUDGE = {"r": 1, "t": 0, "l": 0}
 PID = "C01"
@@ -73,6 +73,12 @@ def run(ctx):
                 "1-3 workers, work/result queue bounds, both pools, ordered and unordered) schedules are enumerated with a preemption-"
                 "bounded depth-first search and sampled with random and PCT walks; every execution's observer events are validated by "
                 "TLC against PoolObs.tla with the results clause enforced. distinct = distinct (scenario, schedule) executions")
+    # design level: exhaustive TLC runs of FunctorPool.tla and conformance of the real code with it
+    hconf = poolsim.Harness()
+    crnd = random.Random(ctx.seed * 7919 + 55)
+    configs = [('C2', 1, 1, 0), ('C3', 2, 2, 0), ('C2u', 2, 2, 0)] if quick else [('C2', 1, 1, 0), ('C3', 2, 2, 0), ('C3', 2, 2, 1), ('C2u', 2, 2, 0), ('C3', 3, 3, 0), ('C0', 2, 2, 0)]
+    hconf.shared = hconf.learn(poolconf.scen_for("C2", 1, 1, 0, JUDGE), crnd)
+    poolconf.design_legs(ctx, configs, ['CallOK', 'NoBad', 'NoLeftovers'], False, ['CallOK'], hconf, crnd, 30 if quick else 300, 30 if quick else 300, JUDGE)
     rnd = random.Random(ctx.seed * 7919 + 101)
     scens = scenarios(rnd, quick, JUDGE)
     run_family(ctx, scens, 150 if quick else 3000, "C01")
